@@ -80,6 +80,10 @@ Fixpoint conn_get (c : list (Z * list Z)) (sid : Z) : list Z :=
 Fixpoint conn_set (c : list (Z * list Z)) (sid : Z) (a : list Z) : list (Z * list Z) :=
   match c with [] => [(sid, a)] | (s, x) :: t => if s =? sid then (s, a) :: t else (s, x) :: conn_set t sid a end.
 
+(* bytes available on self.sock *)
+Definition cur_avail (w : world) : list Z :=
+  match w_sock w with Some s => conn_get (w_conns w) s | None => [] end.
+
 (* a new socket object: fresh id, nothing available on it *)
 Definition fresh_sid : M Z :=
   fun w => (Ok (w_next w), upd_conns (upd_next w (w_next w + 1)) (conn_set (w_conns w) (w_next w) [])).
@@ -93,17 +97,23 @@ Definition fresh_wrapped (raw : Z) : M Z :=
 Definition call (e : ev) : M unit :=
   mbind (log e) (fun _ => mbind pop (fun o => match o with OFail x => throw x | ONormal => ret tt end)).
 (* sock.sendall(b): on success the peer sees b and its reply becomes available on this socket *)
+(* the peer sees b; its reply becomes available on self.sock *)
+Definition deliver_reply (b : list Z) : M unit :=
+  fun w => match w_sock w with
+           | None => (Ok tt, w)
+           | Some sid =>
+             let '(p', reply) := peer (w_peer w) b in
+             (Ok tt, upd_conns (upd_peer w p') (conn_set (w_conns w) sid (conn_get (w_conns w) sid ++ reply)))
+           end.
 (* self.sock.sendall(b) *)
 Definition send (b : list Z) : M unit :=
-  fun w => match w_sock w with
-           | None => (Raise AttributeError, w)
-           | Some sid =>
-             mbind (call (ESend sid b)) (fun _ => fun w =>
-               let '(p', reply) := peer (w_peer w) b in
-               (Ok tt, upd_conns (upd_peer w p') (conn_set (w_conns w) sid (conn_get (w_conns w) sid ++ reply)))) w
-           end.
-(* end of an exchange: the local buffer is dropped *)
-Definition discard : M unit :=
+  mbind get_sock (fun s => match s with
+                           | None => throw AttributeError
+                           | Some sid => mbind (call (ESend sid b)) (fun _ => deliver_reply b)
+                           end).
+(* `buf = b""` at the start of an exchange: whatever the previous exchange left in its local buffer
+   was dropped when that call returned (ghost w_discarded remembers it) *)
+Definition reset_buf : M unit :=
   fun w => (Ok tt, upd_buf (upd_discarded w (w_buf w)) []).
 (* self.sock = None after close(): the local buffer is never read again in this exchange and the
    closed socket's undelivered bytes are gone *)
@@ -133,14 +143,14 @@ End WithPeer.
 Arguments ret {P A}. Arguments throw {P A}. Arguments mbind {P A B}. Arguments lift {P A}.
 Arguments mtry {P A}. Arguments mfinally {P A}. Arguments mfor {P A S}.
 Arguments log {P}. Arguments pop {P}. Arguments get_sock {P}. Arguments set_sock {P}. Arguments get_buf {P}.
-Arguments set_buf {P}. Arguments fresh_sid {P}. Arguments fresh_wrapped {P}. Arguments call {P}. Arguments discard {P}.
+Arguments set_buf {P}. Arguments fresh_sid {P}. Arguments fresh_wrapped {P}. Arguments call {P}. Arguments reset_buf {P}.
 Arguments log_n {P}.
 Arguments w_script {P}. Arguments w_choices {P}. Arguments w_peer {P}. Arguments w_conns {P}. Arguments w_buf {P}.
 Arguments w_discarded {P}. Arguments w_trace {P}. Arguments w_next {P}. Arguments w_sock {P}.
 Arguments upd_script {P}. Arguments upd_choices {P}. Arguments upd_peer {P}. Arguments upd_conns {P}. Arguments upd_buf {P}.
 Arguments upd_discarded {P}. Arguments upd_trace {P}. Arguments upd_next {P}. Arguments upd_sock {P}. Arguments upd_bad {P}.
-Arguments w_bad {P}. Arguments drop_sock {P}. Arguments mark_bad {P}.
-Arguments send {P}.
+Arguments w_bad {P}. Arguments drop_sock {P}. Arguments mark_bad {P}. Arguments cur_avail {P}.
+Arguments send {P}. Arguments deliver_reply {P}.
 
 Declare Scope world_scope.
 Delimit Scope world_scope with world.
